@@ -274,6 +274,9 @@ class Sim:
         # was the handle born with stored CIF data (then its CIF text legitimately carries extra items)?
         self.cif_loaded = ["cif_data" in self.world[0].properties]
         self.cif_group = [None]  # handles that share one stored CIF dictionary by the caller's doing
+        # state-changing calls applied to the handle since it was loaded from the run's source
+        # (None: the handle does not descend from a plain load of the source)
+        self.mut_log = [[]]
         self.repeat = [{}]
         self.last_mut = [None]
         self.last_raise = [None]
@@ -389,6 +392,9 @@ class Sim:
             self.stats["skipped_not_applicable_to_handle"] += 1
             self._log(i, hi, op, "skipped:n/a")
             return fb
+        if op == "cif_twin":
+            self._cif_twin(i, hi)
+            return fb
         if op in O.ALL_QUERIES or op in O.RAISERS:
             fn = O.ALL_QUERIES[op][0] if op in O.ALL_QUERIES else O.RAISERS[op]
             a = self._check_query(i, hi, op, fn, inject=st.get("inject"), defer=bool(st.get("defer")),
@@ -459,6 +465,60 @@ class Sim:
         self.held[hi].append((i, op, raw, b))
         self._check_others(i, hi, op, others)
         return ("ok", None)
+
+    def _cif_twin(self, i, hi):
+        """A crystal born from a CIF legitimately writes items a freshly
+        constructed crystal does not have, so its CIF *text* cannot be compared
+        with the fresh crystal's. Its counterpart without a query history is a
+        twin: loaded from the same source and taken through the same
+        state-changing calls only. The two texts must be identical."""
+        h = self.world[hi]
+        if self.mut_log[hi] is None or not self.cif_loaded[hi] or self.cif_group[hi] is not None:
+            self._log(i, hi, "cif_twin", "skipped:n/a")
+            return
+        S = state_digest(h)
+        others = self._others(hi)
+        try:
+            a = ("ok", h.to_cif_string())
+        except Exception as e:  # noqa: BLE001
+            a = ("raised", type(e).__name__)
+        try:
+            twin = sources.build(self.source_spec, fs_dir=FS.dir("twin", str(i)))
+        except sources.SourceError:
+            self._log(i, hi, "cif_twin", "skipped:source")
+            return
+        for m in self.mut_log[hi]:
+            try:
+                O.MUTATORS[m](twin, self.A, {"dir": FS.dir("twin", str(i)), "box": {}})
+            except Exception:  # noqa: BLE001 - the same call raised on the handle (or not: then the states differ)
+                pass
+        if state_digest(twin) != S:
+            self.stats["cif_twin:state_mismatch_not_judged"] += 1
+            self._log(i, hi, "cif_twin", "skipped:state")
+            return
+        try:
+            b = ("ok", twin.to_cif_string())
+        except Exception as e:  # noqa: BLE001
+            b = ("raised", type(e).__name__)
+        self.stats["checked"] += 1
+        self.stats["q:cif_twin"] += 1
+        if self.armed[hi]:
+            self.nontrivial_checks += 1
+        self._log(i, hi, "cif_twin", a[0] + ":" + digest(a[1]))
+        if a != b:
+            detail = {"what": "the CIF text differs from that of a crystal loaded from the same source and taken through the same state changes only",
+                      "observed": a[0] + ":" + digest(a[1]), "reference": b[0] + ":" + digest(b[1]), "after": self._after(hi)}
+            if a[0] == b[0] == "ok":
+                la, lb = a[1].splitlines(), b[1].splitlines()
+                for k in range(max(len(la), len(lb))):
+                    x, y = (la[k] if k < len(la) else "<end>"), (lb[k] if k < len(lb) else "<end>")
+                    if x != y:
+                        detail["first_difference"] = "line %d: %r vs %r" % (k + 1, x[:80], y[:80])
+                        break
+            raise Violation("STALE_ANSWER" if a[0] == b[0] else "EXCEPTION_MISMATCH", i, "cif_twin", hi, detail)
+        if state_digest(h) != S:
+            raise Violation("QUERY_MUTATED_STATE", i, "cif_twin", hi, {})
+        self._check_others(i, hi, "cif_twin", others)
 
     def _inspect(self, i, hi):
         """Read every answer this handle handed out under deferred inspection."""
@@ -566,6 +626,8 @@ class Sim:
             fired = INJECTOR.disarm() if inject else False
         if inject:
             self.stats["inject:" + ("fired" if fired else "not_reached")] += 1
+        if self.mut_log[hi] is not None:
+            self.mut_log[hi].append(op)
         changed = state_digest(h) != S
         fb["changed"] = changed
         fb["raised"] = a[1] if a[0] == "raised" else None
@@ -613,6 +675,7 @@ class Sim:
                 self.box.append({})
                 self.cif_loaded.append("cif_data" in new.properties)
                 self.cif_group.append(None)
+                self.mut_log.append([] if op == "reload" else None)
                 self.repeat.append({})
                 self.last_mut.append(None)
                 self.last_raise.append(None)
@@ -647,6 +710,7 @@ class Sim:
                 self.box.append({})
                 self.cif_loaded.append("cif_data" in new.properties)
                 self.cif_group.append(None)
+                self.mut_log.append([] if op == "reload" else None)
                 self.repeat.append({})
                 self.last_mut.append(None)
                 self.last_raise.append(None)
@@ -676,6 +740,7 @@ class Sim:
                 self.box.append({})
                 self.cif_loaded.append(False)
                 self.cif_group.append(None)
+                self.mut_log.append(None)
                 self.repeat.append({})
                 self.last_mut.append(None)
                 self.last_raise.append(None)
@@ -701,6 +766,7 @@ class Sim:
                 self.box.append({})
                 self.cif_loaded.append(True)
                 self.cif_group.append(group)
+                self.mut_log.append(None)
                 self.repeat.append({})
                 self.last_mut.append(None)
                 self.last_raise.append(None)
@@ -723,6 +789,7 @@ class Sim:
                 self.box.append({})
                 self.cif_loaded.append("cif_data" in new.properties)
                 self.cif_group.append(None)
+                self.mut_log.append([] if op == "reload" else None)
                 self.repeat.append({})
                 self.last_mut.append(None)
                 self.last_raise.append(None)
@@ -748,6 +815,7 @@ class Sim:
         self.box.append(dict(self.box[hi]))  # the caller passes the SAME kept objects to the copy
         self.cif_loaded.append(self.cif_loaded[hi])
         self.cif_group.append(None)
+        self.mut_log.append(None if self.mut_log[hi] is None else list(self.mut_log[hi]))
         self.repeat.append(dict(self.repeat[hi]))
         self.last_mut.append(self.last_mut[hi])
         self.last_raise.append(self.last_raise[hi])
@@ -768,7 +836,7 @@ class Sim:
             self._log(i, hi, "drop", "skipped")
             return
         others = [(j, sd, md) for j, sd, md in self._others(len(self.world) - 1)]
-        for lst in (self.world, self.titl0, self.kw, self.held, self.box, self.cif_loaded, self.cif_group,
+        for lst in (self.world, self.titl0, self.kw, self.held, self.box, self.cif_loaded, self.cif_group, self.mut_log,
                     self.repeat, self.last_mut, self.last_raise, self.armed):
             lst.pop()
         gc.collect()
@@ -812,6 +880,7 @@ class Sim:
         self.box.append({})
         self.cif_loaded.append("cif_data" in new.properties)
         self.cif_group.append(None)
+        self.mut_log.append(None)
         self.repeat.append({})
         self.last_mut.append(None)
         self.last_raise.append(None)
@@ -920,7 +989,7 @@ def _attribute_child(schedule, vj):
     v = violation_from_json(vj)
     if v.cls not in ("STALE_ANSWER", "EXCEPTION_MISMATCH", "REPEAT_DIFFERS"):
         return []
-    if v.op not in O.ALL_QUERIES and v.op not in O.RAISERS:
+    if (v.op not in O.ALL_QUERIES and v.op not in O.RAISERS) or v.op == "cif_twin":
         return []
     fn = O.ALL_QUERIES[v.op][0] if v.op in O.ALL_QUERIES else O.RAISERS[v.op]
     prefix = dict(schedule, steps=schedule["steps"][: v.step], ref="inproc")
